@@ -62,3 +62,12 @@ func VerifClientEncHandshake(conn io.ReadWriter, prv *ecdsa.PrivateKey, remoteID
 	}
 	return s.Aes, nil
 }
+
+// VerifRun is Server.run (the add/delete peer loop) without Start (no listener, no dialing).
+func (srv *Server) VerifRun() { srv.run() }
+
+// VerifAddPeerCh is the channel HandleConn pushes handshaken peers into.
+func (srv *Server) VerifAddPeerCh() chan<- IPeer { return srv.addPeerCh }
+
+// VerifQuit ends VerifRun.
+func (srv *Server) VerifQuit() { close(srv.quitCh) }
